@@ -224,6 +224,8 @@ EXTRA = [
     ("KK", ["C13"], "TLA+ spec KamadaKawai: step contract of the Kamada-Kawai relocation stage (graph distances exact)"),
     ("NETGEN", ["C19"], "TLA+ spec Netgen: the expected design of every generator command line (names, unit areas, net graph, grid centres; "
      "classes nonsense / degenerate / defined) model-checked for structural lemmas; netgen.main run twice per command line and judged by TLC"),
+    ("FORCETOOL", ["C13", "C19"], "TLA+ spec ForceTool (EXTENDS Pipeline): the force stage as a state machine ParseArgs -> Load -> AddNoise -> "
+     "BuildModel -> SolveKK -> Extract -> ForceAlgorithm -> Write with frame conditions and the gekko_common Model contract; force.main run on files"),
     ("NETAPI", ["C04", "C05", "C13"], "TLA+ spec NetApi: the loaded Netlist/Module as a mutable object: mutators, cached views, coherence"),
 ]
 
